@@ -548,18 +548,19 @@ struct Scenario {
 fn scenarios(thorough: bool) -> Vec<Scenario> {
     let sc = |name: &'static str, programs: Vec<&'static str>, crash: Vec<bool>, preempt: u32, fault: u32| Scenario { name, programs, crash, preempt, fault, stale: name.starts_with("stale+") };
     if thorough {
+        // shortest scenarios first: a capped or interrupted run has then covered the most classes
         vec![
-            sc("owner|checker", vec!["owner", "checker"], vec![true, false], 99, 1),
-            sc("owner|cleaner", vec!["owner", "cleaner"], vec![true, false], 99, 1),
-            sc("holder|checker2", vec!["holder", "checker2"], vec![true, false], 4, 1),
-            sc("owner|owner", vec!["owner", "owner"], vec![true, true], 3, 1),
-            sc("holder|cleaner|checker", vec!["holder", "cleaner", "checker"], vec![true, false, false], 2, 1),
-            sc("owner|checker|checker", vec!["owner", "checker", "checker"], vec![true, false, false], 2, 1),
-            sc("holder|owner|checker", vec!["holder", "owner", "checker"], vec![true, false, false], 2, 1),
             sc("holder|owner", vec!["holder", "owner"], vec![true, true], 3, 1),
             sc("stale+owner|checker", vec!["owner", "checker"], vec![true, false], 4, 1),
             sc("stale+owner|cleaner", vec!["owner", "cleaner"], vec![true, false], 4, 1),
             sc("stale+holder|owner", vec!["holder", "owner"], vec![false, false], 3, 0),
+            sc("holder|owner|checker", vec!["holder", "owner", "checker"], vec![true, false, false], 2, 1),
+            sc("owner|checker|checker", vec!["owner", "checker", "checker"], vec![true, false, false], 2, 1),
+            sc("holder|cleaner|checker", vec!["holder", "cleaner", "checker"], vec![true, false, false], 2, 1),
+            sc("holder|checker2", vec!["holder", "checker2"], vec![true, false], 4, 1),
+            sc("owner|cleaner", vec!["owner", "cleaner"], vec![true, false], 99, 1),
+            sc("owner|checker", vec!["owner", "checker"], vec![true, false], 99, 1),
+            sc("owner|owner", vec!["owner", "owner"], vec![true, true], 3, 1),
         ]
     } else {
         vec![
